@@ -4,6 +4,7 @@ import (
 	"bytes"
 	"encoding/json"
 	"encoding/xml"
+	"errors"
 	"fmt"
 	"net/http"
 	"net/http/httptest"
@@ -257,6 +258,13 @@ func renderHelper(s *Summary, c *renderCase, v any, presetText string) {
 		}
 		ctxErrs = append([]error{}, cx.Errors...)
 	})
+	// an earlier request of the same kind whose client had gone away (every write fails); the measured request - most likely
+	// served on the same pooled context - is answered like the first request of the router
+	func() {
+		defer func() { _ = recover() }()
+		r.ServeHTTP(&goneWriter{hdr: http.Header{}}, &http.Request{Method: "GET", URL: &url.URL{Path: "/r"}, Header: http.Header{}, Proto: "HTTP/1.1"})
+	}()
+	retErr, ctxErrs = nil, nil
 	w := httptest.NewRecorder()
 	var pan any
 	func() {
@@ -422,3 +430,10 @@ var renderOptNo int
 func renderJSONOpts() render.JSONRenderer {
 	return []render.JSONRenderer{{}, {NotEscape: true}, {Indent: "  "}, {NotEscape: true, Indent: "\t"}}[renderOptNo%4]
 }
+
+// goneWriter: the response writer of a client that has gone away
+type goneWriter struct{ hdr http.Header }
+
+func (g *goneWriter) Header() http.Header       { return g.hdr }
+func (g *goneWriter) WriteHeader(int)           {}
+func (g *goneWriter) Write([]byte) (int, error) { return 0, errors.New("write: broken pipe") }
